@@ -73,7 +73,13 @@ func Worker() {
 	debug.SetMaxStack(48 << 20)
 	var lim syscall.Rlimit
 	lim.Cur, lim.Max = 6<<30, 6<<30
-	syscall.Setrlimit(syscall.RLIMIT_AS, &lim)
+	if os.Getenv("VERIF_NO_RLIMIT") == "" {
+		syscall.Setrlimit(syscall.RLIMIT_AS, &lim)
+	}
+	// crash reports of the runtime go to a file the parent reads after the death (more robust than a pipe)
+	if f, err := os.Create(fmt.Sprintf("%s/wlog.%d", os.Getenv("VERIF_WORKER_DIR"), os.Getpid())); err == nil {
+		syscall.Dup2(int(f.Fd()), 2)
+	}
 	in := bufio.NewReaderSize(os.Stdin, 1<<20)
 	out := bufio.NewWriter(core.Out)
 	dir := os.Getenv("VERIF_WORKER_DIR")
@@ -232,6 +238,8 @@ func runBatch(ctx *core.Ctx, self string, texts []string, batch []int, results [
 						done[id] = true
 					}
 					current = -1
+				} else if stderr.Len() < 4000 {
+					stderr.WriteString("[stdout] " + l + "\n")
 				}
 			case <-timer.C:
 				hung = true
@@ -239,7 +247,15 @@ func runBatch(ctx *core.Ctx, self string, texts []string, batch []int, results [
 				break loop
 			}
 		}
-		cmd.Wait()
+		werr := cmd.Wait()
+		logPath := fmt.Sprintf("%s/wlog.%d", ctx.Scratch, cmd.Process.Pid)
+		if b, err := os.ReadFile(logPath); err == nil {
+			if len(b) > 1<<16 {
+				b = b[:1<<16]
+			}
+			stderr.Write(b)
+		}
+		os.Remove(logPath)
 		var rest []int
 		for _, id := range batch {
 			if done[id] {
@@ -249,7 +265,11 @@ func runBatch(ctx *core.Ctx, self string, texts []string, batch []int, results [
 				if hung {
 					results[id] = WorkOut{ID: id, Crashed: "hang"}
 				} else {
-					results[id] = WorkOut{ID: id, Crashed: crashClass(stderr.String())}
+					cc := crashClass(stderr.String())
+					if strings.HasPrefix(cc, "fatal|died|") {
+						cc += fmt.Sprintf(" [%v]", werr)
+					}
+					results[id] = WorkOut{ID: id, Crashed: cc}
 				}
 				continue
 			}
@@ -307,6 +327,13 @@ func crashClass(stderr string) string {
 		}
 		frame = m[1]
 		break
+	}
+	if kind == "died" {
+		t := strings.TrimSpace(stderr)
+		if len(t) > 200 {
+			t = t[:200]
+		}
+		return "fatal|died|" + t
 	}
 	return "fatal|" + kind + "|" + frame
 }
